@@ -155,6 +155,23 @@ func (g *PG) freshName() string {
 	return rapid.SampledFrom(g.names).Draw(g.t, "name")
 }
 
+// bindName draws a name for a new binding, biased (50%) towards a name that is
+// already bound in an enclosing scope or globally, so shadowing is common.
+func (g *PG) bindName(sc *scope) string {
+	if sc != nil && g.pct(50, "shadow-name") {
+		var cands []string
+		for _, v := range sc.all() {
+			if v.fn == nil {
+				cands = append(cands, v.name)
+			}
+		}
+		if len(cands) > 0 {
+			return cands[g.n(0, len(cands)-1, "shadowed")]
+		}
+	}
+	return g.freshName()
+}
+
 func (g *PG) smallInt() Val {
 	switch g.n(0, 9, "intk") {
 	case 0:
@@ -427,6 +444,10 @@ func (g *PG) builtinCall(sc *scope, ty Ty, depth int) Val {
 		case "to-int":
 			return Call("to-int", g.args(sc, depth, Ty(rapid.SampledFrom([]Ty{TyStr, TyNum, TyInt}).Draw(g.t, "toint")))...)
 		case "nth":
+			if g.pct(60, "nth-in-range") {
+				lit := g.intListLit()
+				return Call("nth", lit, I(int64(g.n(0, len(lit.L), "idx"))))
+			}
 			return Call("nth", g.args(sc, depth, TyList, TyInt)...)
 		case "car":
 			return Call(pick("car", "first", "second"), g.args(sc, depth, TyList)...)
@@ -629,7 +650,10 @@ func (g *PG) letForm(sc *scope, ty Ty, depth int) Val {
 	inner := &scope{parent: sc}
 	binds := []Val{}
 	for i := 0; i < n; i++ {
-		name := g.freshName()
+		name := g.bindName(sc)
+		if i > 0 && g.pct(30, "rebind-earlier") {
+			name = inner.vars[g.n(0, len(inner.vars)-1, "earlier")].name
+		}
 		bt := Ty(g.n(0, 8, "bindty"))
 		var init Val
 		if seq {
@@ -986,7 +1010,7 @@ func (g *PG) TopForm(depth int) Val {
 		g.stat("defun")
 		return L(S("defun"), S(name), fs, body)
 	case 3:
-		name := g.Prefix + rapid.SampledFrom([]string{"gx", "gy", "gz"}).Draw(g.t, "gname")
+		name := g.Prefix + rapid.SampledFrom([]string{"gx", "gy", "x", "a", "n", "acc"}).Draw(g.t, "gname")
 		ty := Ty(g.n(1, 8, "gty"))
 		init := g.Expr(g.globals, ty, depth-1)
 		g.globals.vars = append(g.globals.vars, varInfo{name: name, ty: ty})
